@@ -136,6 +136,14 @@ fn mk_adam(route: &str, a: f64, b1: f64, b2: f64, e: f64) -> R<Adam> {
             let _ = o.optimize(f, &[1.0], &[], 2);
             o.clone()
         }
+        "reuse" => {
+            // second call on the same object: the tape (a RefCell inside the optimizer) holds the nodes of the
+            // first run when the second `optimize` starts
+            let o = Adam::new(a, b1, b2, e);
+            let f = objective(|p: &[Var], _d: &[&[f64]]| p[0] * p[0] + p[0].exp());
+            let _ = o.optimize(f, &[1.0], &[], 3);
+            o
+        }
         "set_stepsize" => {
             let mut o = Adam::new(a * 3. + 1., b1, b2, e);
             o.set_stepsize(a);
@@ -169,6 +177,12 @@ fn mk_sgd(route: &str, a: f64, m: f64, nest: bool) -> R<SGD> {
             let _ = o.optimize(f, &[1.0], &[], 2);
             o.clone()
         }
+        "reuse" => {
+            let o = SGD::new(a, m, nest);
+            let f = objective(|p: &[Var], _d: &[&[f64]]| p[0] * p[0] + p[0].exp());
+            let _ = o.optimize(f, &[1.0], &[], 3);
+            o
+        }
         "set_stepsize" => {
             let mut o = SGD::new(a * 3. + 1., m, nest);
             o.set_stepsize(a);
@@ -194,6 +208,12 @@ fn mk_lm(route: &str, e1: f64, e2: f64, tau: f64) -> R<LM> {
     Ok(match route {
         "new" => LM::new(e1, e2, tau),
         "clone" => LM::new(e1, e2, tau).clone(),
+        "reuse" => {
+            let o = LM::new(e1, e2, tau);
+            let f = objective(|p: &[Var], d: &[&[f64]]| p[0] * d[0][0] + p[1]);
+            let _ = o.optimize(f, &[1.0, 0.5], &[&[0., 1., 2.], &[1., 3., 4.]], 3);
+            o
+        }
         "fields" => {
             let mut o = LM::default();
             o.eps1 = e1;
